@@ -697,6 +697,8 @@ def symbolic_paths(fn: ast.AST, max_paths: int = 512,
             for s_ in exits:
                 go(s_, env, conds, seen, trace, ret, retval, stores)
             return
+        if node.kind == "except" and st is not None:
+            trace = trace + [st]  # the ast.ExceptHandler: this path took the exception edge
         if node.kind == "stmt" and st is not None:
             trace = trace + [st]
             if isinstance(st, ast.Return):
